@@ -60,6 +60,7 @@ func runSia(s siaSpec) (obs [][]int, probe []burstProbe, snap snapshot, panics i
 						runtime.Gosched()
 					}
 				}
+				beat()
 				c.SetIfAbsent(k, burstVal(g, k), sz)
 				var v int64
 				var ok bool
